@@ -28,7 +28,7 @@ import (
 // C15, checks 2–4: op-level interleaving of library callers, the read-only
 // fingerprint of shared definitions, and the race-detector monitor.
 
-var wlOps = []string{"build", "validate", "sign", "verify", "correct", "correct-shared", "validate-stamped", "replicate", "corrschema", "cli-build", "digest"}
+var wlOps = []string{"build", "validate", "sign", "verify", "correct", "correct-shared", "validate-stamped", "build-undated", "replicate", "corrschema", "cli-build", "digest"}
 
 var (
 	addonMu   sync.Mutex
@@ -114,12 +114,34 @@ func runItem(c *Ctx, doc, addon, op string) string {
 			env.Head.UUID = FixedHeadUUID(7)
 			return env, nil
 		}
+		if op == "build-undated" {
+			// a document that leaves its date to the clock (the regime's time zone is looked up)
+			if v, err := ParseJV(src); err == nil && v.Get("issue_date") != nil {
+				v.Del("issue_date")
+				v.Del("value_date")
+				v.Del("op_date")
+				src = v.Encode(nil)
+			}
+		}
 		env, err := build()
 		if err != nil {
 			out = "build-error:" + errKey(err) + ":" + H([]byte(err.Error()))
 			return
 		}
 		switch op {
+		case "build-undated":
+			v, _ := ParseJV(Marshal(env))
+			if v != nil && v.Get("doc") != nil {
+				// the date depends on the instant; everything else must not
+				v.Get("doc").Del("issue_date")
+				v.Get("head").Del("dig")
+				if v.Get("doc").Get("totals") != nil {
+					v.Get("doc").Del("totals")
+					v.Get("doc").Del("lines")
+					v.Get("doc").Del("payment")
+				}
+				out = "undated:" + H(v.Encode(nil))
+			}
 		case "build":
 			out = "ok:" + H(Marshal(env))
 		case "validate":
@@ -271,6 +293,12 @@ func init() {
 				}
 				p := &Plan{Prop: "C15", Check: "shared", Seed: c.Seed, Run: run, Str: map[string]string{"doc": it[0], "addon": it[1]}}
 				for i, op := range wlOps {
+					if op == "build-undated" {
+						// looks the regime's time zone up: a properly synchronised cache filled on
+						// first use would look like a write to the fingerprint, so this operation is
+						// left to the interleaving check and the race monitors
+						continue
+					}
 					p.Ops = append(p.Ops, Op{ID: i + 1, K: op})
 				}
 				return p
